@@ -265,6 +265,9 @@ def run(chk: Check, eng: Engine) -> None:
             chk.bad("R11-c", eng.relfile(m), m.line, m.fq, f"{c.name}.__copy__ does not build a new object", "copy() on a memo hit returns the entry itself", keyparts=f"copy-identity|{c.name}")
 
 
+    chk.rule("R11-g", "quantifiers write their bound variable only into dictionaries they own (copies made in the same call)", floor=4)
+    from . import common_fitness as _cfo
+    _cfo.owned_binding_rule(chk, eng, "R11-g")
     chk.rule("R11-f", "a value memoised on a tree node and handed out by reference is immutable", floor=1)
     memo_by_reference_rule(chk, eng)
     chk.rule("R11-e", "lists the evaluator extends in place come from helpers that build them anew on every call", floor=2)
@@ -570,13 +573,15 @@ _CON = "src/fandango/constraints/conjunction.py"
 _EV = "src/fandango/evolution/evaluation.py"
 _FT = "src/fandango/constraints/fitness.py"
 MUTANTS = [
+    M("exists-binds-into-callers-scope", "src/fandango/constraints/exists.py", "        scope = dict(scope or {})\n        local_variables = dict(local_variables or {})\n", "        scope = scope or dict()\n        local_variables = local_variables or dict()\n", "R11-g"),
     M("gethash-drops-locals", _B, "                tuple((scope or {}).items()),\n                tuple((local_variables or {}).items()),\n", "                tuple((scope or {}).items()),\n", "R11-a"),
     M("gethash-keys-only", _B, "                tuple((scope or {}).items()),", "                tuple((scope or {}).keys()),", "R11-a"),
     M("gethash-no-root", _B, "                tree.get_root(),\n                tree,\n", "                tree,\n", "R11-a"),
     M("expression-key-without-scope", _EXP, "        tree_hash = self.get_hash(tree, scope, local_variables)", "        tree_hash = self.get_hash(tree)", "R11-a"),
     M("evaluator-key-without-root", _EV, "        key = hash((individual.get_root(), individual))\n        if key in self._fitness_cache:\n            return self._fitness_cache[key]\n\n        total", "        key = hash(individual)\n        if key in self._fitness_cache:\n            return self._fitness_cache[key]\n\n        total", "R11-a"),
-    M("forall-key-after-binding", _FA, "        tree_hash = self.get_hash(tree, scope, local_variables)\n        # If the fitness has already been calculated, return the cached value\n        if tree_hash in self.cache:\n            return copy(self.cache[tree_hash])\n        fitness_values = list()\n        scope = scope or dict()\n        local_variables = local_variables or dict()\n",
-      "        scope = scope or dict()\n        local_variables = local_variables or dict()\n        tree_hash = self.get_hash(tree, scope, local_variables)\n        # If the fitness has already been calculated, return the cached value\n        if tree_hash in self.cache:\n            return copy(self.cache[tree_hash])\n        fitness_values = list()\n", "R11-b"),
+    M("forall-key-after-binding", _FA, "        tree_hash = self.get_hash(tree, scope, local_variables)\n        # If the fitness has already been calculated, return the cached value\n        if tree_hash in self.cache:\n            return copy(self.cache[tree_hash])\n        fitness_values = list()\n",
+      "        fitness_values = list()\n", "R11-b",
+      more=(("        local_variables = dict(local_variables or {})\n", "        local_variables = dict(local_variables or {})\n        scope[NonTerminal(\"<_probe>\")] = tree\n        tree_hash = self.get_hash(tree, scope, local_variables)\n        # If the fitness has already been calculated, return the cached value\n        if tree_hash in self.cache:\n            return copy(self.cache[tree_hash])\n"),)),
     M("exists-store-recomputed-key", _EX, "        # Cache the fitness\n        self.cache[tree_hash] = fitness\n        return fitness", "        # Cache the fitness\n        self.cache[self.get_hash(tree, scope, local_variables)] = fitness\n        return fitness", "R11-b"),
     M("conjunction-hit-no-copy", _CON, "        if tree_hash in self.cache:\n            return copy(self.cache[tree_hash])", "        if tree_hash in self.cache:\n            return self.cache[tree_hash]", "R11-c"),
     M("implication-mutates-uncopied", _IMP, "            fitness = copy(self.consequent.fitness(tree, scope, local_variables))", "            fitness = self.consequent.fitness(tree, scope, local_variables)", "R11-c"),
